@@ -299,6 +299,58 @@ fn classify(d: &PlutusData) -> String {
     if o.is_empty() { "datum-structure".into() } else { format!("datum-{}", o.join("+")) }
 }
 
+/// Synthetic transaction, hand-encoded CBOR: duplicate / unsorted inputs, coin, fee and native-asset
+/// quantities over the whole u64 range, post-Alonzo (map) or legacy (array) outputs.
+fn gen_tx_bytes(rng: &mut Rng, legacy: bool) -> Vec<u8> {
+    let mut buf = Vec::new();
+    let mut e = minicbor::Encoder::new(&mut buf);
+    let n_in = 1 + rng.below(5);
+    let hashes: Vec<Vec<u8>> = (0..3).map(|_| { let mut h = rng.bytes(32); if rng.bool() { h[0] = 0x10; h[1] = 0x20; } h }).collect();
+    e.array(4).unwrap();
+    let has_ttl = rng.bool();
+    e.map(if has_ttl { 4 } else { 3 }).unwrap();
+    e.u8(0).unwrap();
+    e.array(n_in).unwrap();
+    for _ in 0..n_in {
+        e.array(2).unwrap();
+        { let k = rng.below(hashes.len() as u64) as usize; e.bytes(&hashes[k]).unwrap(); }
+        e.u64(match rng.below(4) { 0 => 0, 1 => rng.below(3), 2 => rng.below(70000), _ => u32::MAX as u64 - rng.below(2) }).unwrap();
+    }
+    e.u8(1).unwrap();
+    let n_out = 1 + rng.below(3);
+    e.array(n_out).unwrap();
+    for _ in 0..n_out {
+        let mut addr = vec![0x61u8]; addr.extend(rng.bytes(28));
+        let coin = rng.edge_u64();
+        let n_pol = rng.below(3);
+        if legacy { e.array(2).unwrap(); e.bytes(&addr).unwrap(); }
+        else { e.map(2).unwrap(); e.u8(0).unwrap(); e.bytes(&addr).unwrap(); e.u8(1).unwrap(); }
+        if n_pol == 0 { e.u64(coin).unwrap(); }
+        else {
+            e.array(2).unwrap(); e.u64(coin).unwrap();
+            e.map(n_pol).unwrap();
+            for p in 0..n_pol {
+                let mut pol = rng.bytes(28); pol[0] = p as u8;
+                e.bytes(&pol).unwrap();
+                let n_as = 1 + rng.below(3);
+                e.map(n_as).unwrap();
+                for a in 0..n_as {
+                    let nl = rng.below(6) as usize; let mut name = rng.bytes(nl); name.push(a as u8);
+                    e.bytes(&name).unwrap();
+                    let q = match rng.below(5) { 0 => 1, 1 => i64::MAX as u64, 2 => i64::MAX as u64 + 1, 3 => u64::MAX - rng.below(2), _ => rng.edge_u64().max(1) };
+                    e.u64(q).unwrap();
+                }
+            }
+        }
+    }
+    e.u8(2).unwrap(); e.u64(rng.edge_u64()).unwrap();
+    if has_ttl { e.u8(3).unwrap(); e.u64(rng.edge_u64()).unwrap(); }
+    e.map(0).unwrap();
+    e.bool(rng.chance(9, 10)).unwrap();
+    e.null().unwrap();
+    buf
+}
+
 fn main() {
     let args = args();
     let mut rng = Rng::new(args.seed);
@@ -335,6 +387,19 @@ fn main() {
         }
     }
     emit_stat("txs_mapped", ntx);
+    // 1b. synthetic transactions (boundary amounts, duplicate inputs)
+    let mut nsyn = 0u64;
+    for i in 0..(args.n / 4).max(40) {
+        let legacy = i % 3 == 0;
+        let bytes = gen_tx_bytes(&mut rng, legacy);
+        let era = if legacy { pallas_traverse::Era::Alonzo } else { pallas_traverse::Era::Babbage };
+        if let Ok(tx) = MultiEraTx::decode_for_era(era, &bytes) {
+            va::tx_case(&tx, "synthetic", args.oracle_only);
+            vb::tx_case(&tx, "synthetic", args.oracle_only);
+            nsyn += 1;
+        }
+    }
+    emit_stat("synthetic_txs_mapped", nsyn);
     // 2. u64_to_bigint boundary + random
     let some_tx_bytes = first_tx.expect("a post-alonzo tx in test_data");
     let some_tx = MultiEraTx::decode(&some_tx_bytes).expect("tx");
